@@ -61,7 +61,30 @@ fn concretise(fmt: &str, kinds: &[String], variant: usize) -> String {
         let line = if fmt == "iccma" { iccma_text(k) } else { apx_text(k) };
         // surrounding / repeated spaces where the grammar allows them
         let spaced = variant == 3 && !(fmt == "iccma" && (k == "cmt" || k == "empty"));
-        if spaced {
+        if variant == 4 {
+            // long physical lines (around and above 64 KiB): same content, so same verdict
+            let sizes = [65535usize, 65536, 65537, 70000, 131077, 8191, 8192, 8193];
+            let sz = sizes[(i + kinds.len()) % sizes.len()];
+            if fmt == "iccma" && k == "cmt" {
+                let mut c = String::from("# ");
+                while c.len() + 4 < sz {
+                    c.push_str("filler ");
+                }
+                c.truncate(sz - 4);
+                c.push_str(" 3 1");
+                t.push_str(&c);
+            } else if fmt == "iccma" && (k == "empty" || k == "ws") {
+                t.push_str(line);
+            } else if fmt == "iccma" {
+                t.push_str(&line.replacen(' ', &" ".repeat(sz), 1));
+            } else if !line.is_empty() && k != "ws" {
+                t.push_str(&" ".repeat(sz));
+                t.push_str(line);
+                t.push_str("   ");
+            } else {
+                t.push_str(line);
+            }
+        } else if spaced {
             if fmt == "iccma" {
                 t.push_str("  ");
                 t.push_str(&line.replace(' ', " \t "));
@@ -244,6 +267,9 @@ pub fn cmd_io(a: &Args) {
             let mut v = vec![read_event(fmt, kinds, 0)];
             let extra = 1 + (i + seed as usize) % 3;
             v.push(read_event(fmt, kinds, extra));
+            if i % 6 == 0 || (kinds.iter().any(|k| k == "cmt") && i % 2 == 0) {
+                v.push(read_event(fmt, kinds, 4));
+            }
             v
         });
         lines.extend(res.into_iter().flatten());
